@@ -324,10 +324,17 @@ def run_impl(ctx, module, func, cases, nworkers=None, per_case_timeout=60):
 # known findings, replays, evidence
 # ------------------------------------------------------------------------------------------------
 def known_findings(pid):
+    """Entries with status=finding for this property, from known_findings.json and known_findings.d/<pid>.json
+    (per-property part files written by the property's builder; merged into the main file by the coordinator)."""
+    entries = []
     path = os.path.join(VERIF, "known_findings.json")
-    if not os.path.exists(path):
-        return []
-    return [e for e in json.load(open(path))["entries"] if e["property"] == pid and e["status"] == "finding"]
+    if os.path.exists(path):
+        entries += json.load(open(path))["entries"]
+    part = os.path.join(VERIF, "known_findings.d", f"{pid}.json")
+    if os.path.exists(part):
+        have = {e.get("id") for e in entries}
+        entries += [e for e in json.load(open(part)) if e.get("id") not in have]
+    return [e for e in entries if e["property"] == pid and e["status"] == "finding"]
 
 
 def write_replay(ctx, kind, payload):
